@@ -1450,7 +1450,24 @@ impl Gen {
                             .unwrap_or([1, 0, 0, 0, 0, 0]);
                         self.sym.ans = Some(Ty::Dim(d));
                         let other = self.literal(&d);
-                        format!("{} {name} + {other}", self.rng.range(1, 9))
+                        // prefixed spellings (long prefix + name, short prefix + short alias)
+                        let spelled = match self
+                            .sym
+                            .units
+                            .iter()
+                            .rev()
+                            .find(|u| (u.name == name || u.short.as_deref() == Some(name.as_str())) && u.prefixes)
+                        {
+                            Some(u) if self.rng.chance(0.6) => {
+                                if u.short.as_deref() == Some(name.as_str()) {
+                                    format!("m{name}")
+                                } else {
+                                    format!("kilo{name}")
+                                }
+                            }
+                            _ => name.clone(),
+                        };
+                        format!("{} {spelled} + {other}", self.rng.range(1, 9))
                     }
                     "dimension" if self.sym.dims.iter().any(|d| d.0 == name) || self.sym.named_dims.iter().any(|d| d.0 == name) => {
                         return self.statement(0, gi);
@@ -1488,6 +1505,32 @@ impl Gen {
                         });
                         format!("{deco}unit {name}: {dim_name} = {} {base}", self.rng.range(2, 9))
                     }
+                    "struct" if !self.sym.structs.iter().any(|x| x.name == name) => {
+                        // the struct a failed input tried to define, with other fields
+                        gi.contains.insert("struct");
+                        let fields = vec![
+                            ("ga".to_string(), Ty::Dim(SCALAR)),
+                            ("gb".to_string(), Ty::Dim([1, 0, 0, 0, 0, 0])),
+                        ];
+                        let nf = self.rng.range(1, 2) as usize;
+                        let fields: Vec<(String, Ty)> = fields.into_iter().take(nf).collect();
+                        let text = format!(
+                            "struct {name} {{ {} }}",
+                            fields
+                                .iter()
+                                .map(|(f, t)| format!("{f}: {}", self.ty_text(t)))
+                                .collect::<Vec<_>>()
+                                .join(", ")
+                        );
+                        let lits: Vec<String> = fields
+                            .iter()
+                            .map(|(f, t)| format!("{f}: {}", if matches!(t, Ty::Dim(d) if dim_is_scalar(d)) { "4" } else { "(2 * m)" }))
+                            .collect();
+                        gi.probes.push(format!("{name} {{ {} }}", lits.join(", ")));
+                        self.sym.structs.push(StructS { name: name.clone(), fields });
+                        text
+                    }
+                    "struct" => return self.statement(13, gi),
                     "function" => {
                         gi.contains.insert("fn");
                         gi.defines.push((name.clone(), "function"));
@@ -2015,6 +2058,16 @@ impl Gen {
             }
             for m in self.pending_imports.clone() {
                 self.recent_failed.push((m, "module"));
+            }
+            // structs the failing input tried to define (they are not in any name list, so they
+            // are not part of `defines`; follow-up traffic re-defines them with other fields)
+            for st in &stmts {
+                if let Some(rest) = st.strip_prefix("struct ")
+                    && let Some(name) = rest.split_whitespace().next()
+                    && name.starts_with("Sq")
+                {
+                    self.recent_failed.push((name.to_string(), "struct"));
+                }
             }
             if self.recent_failed.len() > 8 {
                 let cut = self.recent_failed.len() - 8;
